@@ -17,12 +17,16 @@ package project
 //             project with seeded lengths.  Every shape is a function (n, pad) -> configuration; pad lengthens the project's
 //             version byte by byte, so the serialised size can be set exactly.
 //   targets   every power of two 2^8 .. 2^20 (2^22 in the thorough tier) and every power of ten 10^3 .. 10^6: for each target
-//             T and each shape, configurations whose FILE is exactly T-1, T and T+1 bytes long; for the count / length
-//             shapes also n = T-1, T, T+1 (255/256/257 requirements, a 65536-byte name, ...) for T up to 2^16 (2^20 for lengths).
-//   alignment for T in {4096, 65536} (every 2^9..2^17 in the thorough tier) and the multi-line shapes, a file of about 1.5 T
-//             bytes shifted one byte at a time over more than a line's length: byte T of the file is, in turn, every position of
-//             a requirement line, the line's first byte included.  (A cut at a line boundary leaves a well-formed shorter
-//             document: the loader reports nothing and the tail of [requirements] is gone.)
+//             T and each shape, configurations whose FILE is exactly T-1, T and T+1 bytes long; also n = T-1, T, T+1 for the
+//             shape's own parameter (255/256/257 requirements, a 65536-byte name, ...; entry counts up to 2^12, 2^13 thorough).
+//             Above 64 KiB (256 KiB thorough): four shapes, one file size (T+1) per target except for long-name.  go-toml's
+//             decoder takes time quadratic in the number of keys of a table (15 000 requirements: 2 s), so files made of
+//             requirement lines stop at 256 KiB (1 MiB thorough) and the larger files are made of patterns and long strings.
+//   alignment for T in {512, 4096} and the multi-line shapes, and T = 65536 for the quoted-keys shape (every 2^9..2^17 and all
+//             three shapes in the thorough tier), a file of about 1.5 T bytes shifted one byte at a time over more than a
+//             line's length: byte T of the file is, in turn, every position of a requirement line, the line's first byte and
+//             both bytes of a two-byte character included.  (A cut at a line boundary leaves a well-formed shorter document:
+//             the loader reports nothing and the tail of [requirements] is gone.)  From 32 KiB on without the rewrite steps.
 //   random    seeded sizes between the targets.
 //
 // Oracle (the property's own, on every case; every generated configuration is inside the quantifier, which is asserted with
@@ -51,7 +55,6 @@ import (
 	"strconv"
 	"strings"
 	"testing"
-	"time"
 )
 
 type c19shape struct {
@@ -155,10 +158,12 @@ func TestVerifC19Size(t *testing.T) {
 		return d
 	}
 	seed := geti("VERIF_SEED", 0)
-	maxPow := geti("VERIF_SIZE_MAXPOW", 20)        // file sizes up to 2^maxPow
-	widePow := geti("VERIF_SIZE_WIDEPOW", 16)      // above 2^widePow: four shapes only, and one file size per target (T+1) except for long-name
-	cntPow := geti("VERIF_SIZE_CNTPOW", 12)        // n = T-1, T, T+1 ENTRIES for T up to 2^cntPow (plus one case of 65537 requirements)
-	modelMax := geti("VERIF_SIZE_MODEL", 4200)     // cases of at most this many bytes around T=4096 also go to the Coq model
+	maxPow := geti("VERIF_SIZE_MAXPOW", 20)   // file sizes up to 2^maxPow
+	widePow := geti("VERIF_SIZE_WIDEPOW", 16) // above 2^widePow: four shapes only, and one file size per target (T+1) except for long-name
+	cntPow := geti("VERIF_SIZE_CNTPOW", 12)   // n = T-1, T, T+1 ENTRIES for T up to 2^cntPow
+	reqPow := geti("VERIF_SIZE_REQPOW", 18)   // files of requirement lines up to 2^reqPow bytes (go-toml's decoder takes time
+	// quadratic in the number of keys of a table: 15 000 requirements load in 2 s, 65 000 in 13 s); larger files: other shapes
+	modelMax := geti("VERIF_SIZE_MODEL", 4200) // cases of at most this many bytes around T=4096 also go to the Coq model
 	nRandom := geti("VERIF_SIZE_NRANDOM", 40)
 	alignTs := []int{1 << 9, 1 << 12, 1 << 16} // 2^16: one shape only (see below)
 	if os.Getenv("VERIF_SIZE_ALIGN_ALL") != "" {
@@ -168,7 +173,6 @@ func TestVerifC19Size(t *testing.T) {
 		}
 	}
 	rng := rand.New(rand.NewSource(int64(seed)*7919 + 1919))
-	t0 := time.Now()
 	dir := t.TempDir()
 	if d, err := os.MkdirTemp("/dev/shm", "verif-c19-size-"); err == nil {
 		dir = d
@@ -305,7 +309,7 @@ func TestVerifC19Size(t *testing.T) {
 		return "", "", b1
 	}
 
-	nFail := 0
+	nFail := map[string]int{}
 	longest := func(c *Config) int {
 		m := len(c.Name)
 		for _, s := range c.Ignore {
@@ -347,13 +351,13 @@ func TestVerifC19Size(t *testing.T) {
 			return
 		}
 		stats["failures"]++
-		if nFail++; nFail > 12 {
+		if nFail[name]++; nFail[name] > 6 { // per oracle: a silent loss is not crowded out by the (more frequent) load errors
 			return
 		}
 		// shrink along the shape's own parameter: the smallest failing n (bisection; failure need not be monotone, so the
 		// result is verified), then without padding
 		sn, sp, sname, sdetail, sb := n, pad, name, detail, b1
-		if nFail <= 4 {
+		if nFail[name] <= 2 {
 			bad := func(n, pad int) bool { nm, _, _ := check(sh.build(n, pad)); return nm != "" }
 			lo, hi := 0, n
 			for lo < hi {
@@ -433,11 +437,8 @@ func TestVerifC19Size(t *testing.T) {
 	all3, just1 := []int{-1, 0, 1}, []int{1}
 	for _, T := range targets {
 		wide := T > 1<<widePow
-		if os.Getenv("VERIF_SIZE_DEBUG") != "" {
-			fmt.Fprintln(os.Stderr, "target", T, time.Since(t0), stats["cases"], bytesTotal)
-		}
 		for _, sh := range shapes {
-			if wide && !wideShapes[sh.name] {
+			if wide && !wideShapes[sh.name] || sh.name == "requirements" && T > 1<<reqPow {
 				continue
 			}
 			deltas := all3
@@ -466,16 +467,8 @@ func TestVerifC19Size(t *testing.T) {
 			}
 		}
 	}
-	if cntPow < 16 {
-		light = true
-		do(shapes[0], 1<<16+1, 0, "parameter:65536+1", false)
-		light = false
-	}
 	// alignment: byte T of the file at every position of a line
 	for _, T := range alignTs {
-		if os.Getenv("VERIF_SIZE_DEBUG") != "" {
-			fmt.Fprintln(os.Stderr, "align", T, time.Since(t0), stats["cases"], bytesTotal)
-		}
 		for _, sh := range shapes {
 			if !sh.lines || T >= 1<<16 && os.Getenv("VERIF_SIZE_ALIGN_ALL") == "" && sh.name != "requirements-quoted-keys" {
 				continue
